@@ -9,6 +9,7 @@ and states postconditions over inputs and outcome.  The same contract text is ev
 """
 from __future__ import annotations
 
+import os
 import copy
 import importlib
 import math
@@ -133,9 +134,13 @@ def scratch_dir(prefix="verif_"):
     import tempfile
 
     if not _SCRATCH:
-        root = tempfile.mkdtemp(prefix="pyvc_scratch_")
-        _SCRATCH.append(root)
-        atexit.register(shutil.rmtree, root, True)
+        root = os.environ.get("PYVC_SCRATCH_ROOT")
+        if root and os.path.isdir(root):
+            _SCRATCH.append(root)
+        else:
+            root = tempfile.mkdtemp(prefix="pyvc_scratch_")
+            _SCRATCH.append(root)
+            atexit.register(shutil.rmtree, root, True)
     return tempfile.mkdtemp(prefix=prefix, dir=_SCRATCH[0])
 
 
